@@ -38,3 +38,10 @@ Theorem C01_v2_value_flow : forall H net vt pt se sd s m t revised resolved,
   sum_sco t + sum_fc t + zsum (map relocked (t2_res t)) + t2_fee t + zsum (map paid_out (t2_res t)) + zsum (map forfeited (t2_res t)).
 Proof. exact v2_value_flow. Qed.
 Print Assumptions C01_v2_value_flow.
+
+(* the same for v1 transactions: spent values (as validation resolves the parents) = new outputs + contract payouts + fees *)
+Theorem C01_v1_value_flow : forall s m t ts, validate_siacoins s m t ts = Ok tt ->
+  zsum (map (spent_value m ts) (t1_sci t)) =
+  zsum (map (fun x => sco_value (snd x)) (t1_sco t)) + zsum (map (fun x => fc_payout (snd (fst x))) (t1_fc t)) + zsum (t1_fees t).
+Proof. exact v1_value_flow. Qed.
+Print Assumptions C01_v1_value_flow.
